@@ -71,7 +71,7 @@ pub fn check(ls: &LangSet, code: &str, s: &str, r: &str) -> (bool, usize, Option
 }
 
 pub fn run(ctx: &Ctx) -> Outcome {
-    let n_texts = ctx.n(150_000, 5_000_000);
+    let n_texts = ctx.n(600_000, 12_000_000);
     let rep = run_sharded(ctx, |w, nw, rep| {
         let ls = LangSet::new();
         let mut rng = Rng::derive(ctx.seed, "C11", w as u64);
